@@ -46,7 +46,27 @@ EvalForm(f, sc) ==
   IF f.f = "dt" THEN Result(f.table, [i \in 1..Len(f.table.ins) |-> Eval([n |-> "name", id |-> f.table.ins[i].name], sc)], sc)
   ELSE Eval(TreeOf(f), sc)
 
-RECURSIVE BkmFn(_, _), DecisionValue(_, _, _), ServiceValue(_, _, _), ServiceFn(_, _, _)
+RECURSIVE BkmFn(_, _), DecisionValue(_, _, _), ServiceValue(_, _, _), ServiceFn(_, _, _), SvcCall(_, _, _, _), CtxFold(_, _, _, _, _, _)
+
+\* a boxed invocation `inv` of a decision service required by decision d, its binding formulas evaluated in scope sc: the
+\* bindings name the service's inputs, so their order plays no part; the service is evaluated on exactly the bound values
+SvcCall(m, d, inv, sc) ==
+  LET s  == Find(m.services, inv.callee)
+      bs == inv.binds
+      BoundTo(n) == bs[CHOOSE j \in 1..Len(bs) : bs[j].p = n].form
+  IN IF s.inDec # <<>> \/ Len(bs) # Len(s.inData) \/ ~(\A i \in 1..Len(s.inData) : \E j \in 1..Len(bs) : bs[j].p = s.inData[i])
+        \/ ~(\E i \in 1..Len(d.reqSvc) : d.reqSvc[i] = inv.callee) THEN Unspec
+     ELSE LET vals == [i \in 1..Len(s.inData) |-> Eval(TreeOf(BoundTo(s.inData[i])), sc)] IN
+          IF \E i \in 1..Len(vals) : IsU(vals[i]) THEN Unspec
+          ELSE ServiceValue(m, s.name, Ctx([i \in 1..Len(s.inData) |-> [n |-> s.inData[i], v |-> vals[i]]]))
+
+\* the entries of a boxed context, in order, each seeing the ones before it; an entry may be a boxed invocation of a service
+CtxFold(m, d, f, i, base, acc) ==
+  IF i > Len(f.ents) THEN acc
+  ELSE LET e  == f.ents[i]
+           sc == <<base, Ctx(acc)>>
+           v  == IF e.form.f = "inv" /\ Has(m.services, e.form.callee) THEN SvcCall(m, d, e.form, sc) ELSE EvalForm(e.form, sc)
+       IN CtxFold(m, d, f, i + 1, base, Append(acc, [n |-> e.name, v |-> v]))
 
 \* a knowledge model as a function value; its environment holds the models it requires
 BkmFn(m, name) ==
@@ -62,17 +82,10 @@ DecisionValue(m, name, inputs) ==
               \o [i \in 1..Len(d.reqDec) |-> [n |-> d.reqDec[i], v |-> DecisionValue(m, d.reqDec[i], inputs)]]
               \o [i \in 1..Len(d.reqBkm) |-> [n |-> d.reqBkm[i], v |-> BkmFn(m, d.reqBkm[i])]]
               \o [i \in 1..Len(d.reqSvc) |-> [n |-> d.reqSvc[i], v |-> ServiceFn(m, d.reqSvc[i], inputs)]]
-  IN IF d.form.f = "inv" /\ Has(m.services, d.form.callee)
-     THEN \* a boxed invocation of a required decision service: the bindings name the service's inputs, so their order plays
-          \* no part; the service is evaluated on exactly the bound values
-          LET s  == Find(m.services, d.form.callee)
-              bs == d.form.binds
-              BoundTo(n) == bs[CHOOSE j \in 1..Len(bs) : bs[j].p = n].form
-          IN IF s.inDec # <<>> \/ Len(bs) # Len(s.inData) \/ ~(\A i \in 1..Len(s.inData) : \E j \in 1..Len(bs) : bs[j].p = s.inData[i])
-                \/ ~(\E i \in 1..Len(d.reqSvc) : d.reqSvc[i] = d.form.callee) THEN Unspec
-             ELSE LET vals == [i \in 1..Len(s.inData) |-> Eval(TreeOf(BoundTo(s.inData[i])), <<Ctx(ents)>>)] IN
-                  IF \E i \in 1..Len(vals) : IsU(vals[i]) THEN Unspec
-                  ELSE ServiceValue(m, s.name, Ctx([i \in 1..Len(s.inData) |-> [n |-> s.inData[i], v |-> vals[i]]]))
+  IN IF d.form.f = "inv" /\ Has(m.services, d.form.callee) THEN SvcCall(m, d, d.form, <<Ctx(ents)>>)
+     ELSE IF d.form.f = "ctx" /\ \E i \in 1..Len(d.form.ents) : d.form.ents[i].form.f = "inv" /\ Has(m.services, d.form.ents[i].form.callee)
+     THEN LET all == CtxFold(m, d, d.form, 1, Ctx(ents), <<>>) IN
+          IF d.form.res.f = "none" THEN Ctx(all) ELSE EvalForm(d.form.res, <<Ctx(ents), Ctx(all)>>)
      ELSE EvalForm(d.form, <<Ctx(ents)>>)
 
 \* a decision service evaluated on an input context: its output decisions' values
